@@ -42,7 +42,7 @@ class Terms(object):
     when every store to that address in the function dominates the load.
     """
 
-    def __init__(self, fn, forward=True):
+    def __init__(self, fn, forward=False):
         self.fn = fn
         self.forward = forward
         self.memo = {}
@@ -406,3 +406,89 @@ def blocks_reaching(fn, targets):
                 seen.add(p.id)
                 st.append(p)
     return seen
+
+
+# ------------------------------------------------------------------ loops (A7)
+class LoopRange(object):
+    """Canonical induction: iv = start, start+step, ... while (iv pred bound)."""
+
+    def __init__(self, loop, iv, start, step, pred, bound, bound_v, exit_block, body_succ, cmp_inst, on_next=False):
+        self.loop = loop
+        self.iv = iv                # phi Inst
+        self.start = start          # term
+        self.step = step            # int
+        self.pred = pred            # predicate under which the loop CONTINUES, written iv pred bound
+        self.bound = bound          # term
+        self.bound_v = bound_v      # V
+        self.exit_block = exit_block
+        self.body = body_succ
+        self.cmp = cmp_inst
+        self.on_next = on_next      # compare is on iv+step (do-while style)
+
+    def describe(self):
+        return 'i = %s; i %s %s; i += %d' % (show(self.start), self.pred, show(self.bound), self.step)
+
+
+def loop_range(fn, loop, terms):
+    """Recognise the canonical induction variable of a natural loop whose exit test sits in the header.
+    The bound may be re-loaded every iteration (field of a control block); the caller checks invariance
+    with loop_invariant_field()."""
+    hdr = loop.header
+    t = hdr.term()
+    if t.op != 'br' or len(t.ops) != 3:
+        return None
+    succ_t, succ_f = hdr.succs[0], hdr.succs[1]
+    in_t, in_f = succ_t.id in loop.blocks, succ_f.id in loop.blocks
+    if in_t == in_f:
+        return None
+    c = strip_casts(t.ops[0])
+    if c.k != 'i' or c.inst.op != 'icmp':
+        return None
+    cmpi = c.inst
+    pred = cmpi.pred if in_t else NEG[cmpi.pred]
+    a, b = cmpi.ops[0], cmpi.ops[1]
+    for (x, y, p) in ((a, b, pred), (b, a, SWAP[pred])):
+        xv = strip_casts(x)
+        if xv.k == 'i' and xv.inst.op == 'phi' and xv.inst.block is hdr:
+            phi = xv.inst
+            start = None
+            step = None
+            ok = True
+            for bid, v in phi.incoming:
+                if bid in loop.blocks:
+                    sv = strip_casts(v)
+                    if sv.k == 'i' and sv.inst.op in ('add', 'sub'):
+                        o0, o1 = strip_casts(sv.inst.ops[0]), sv.inst.ops[1]
+                        cst = const_of(o1)
+                        if o0.k == 'i' and o0.inst is phi and cst is not None:
+                            st = cst if sv.inst.op == 'add' else -cst
+                            if step is not None and step != st:
+                                ok = False
+                            step = st
+                        else:
+                            ok = False
+                    else:
+                        ok = False
+                else:
+                    s = terms.term(v)
+                    if start is not None and start != s:
+                        ok = False
+                    start = s
+            if ok and step is not None and start is not None:
+                return LoopRange(loop, phi, start, step, p, terms.term(y), y, succ_f if in_t else succ_t,
+                                 succ_t if in_t else succ_f, cmpi)
+    return None
+
+
+def stores_in_loop(fn, loop):
+    for bid in loop.blocks:
+        for i in fn.bmap[bid].insts:
+            if i.op == 'store':
+                yield i
+
+
+def calls_in_loop(fn, loop):
+    for bid in loop.blocks:
+        for i in fn.bmap[bid].insts:
+            if i.op == 'call':
+                yield i
